@@ -508,6 +508,22 @@ type loggerCreation struct {
 // in it; the allocation is the lock's identity.
 func unwrapLocked(P *core.Program, v ssa.Value) (ssa.Value, string) {
 	v = core.StripConv(v)
+	// built by a constructor (newLockedWriter(w)): the object is the call's, the writer inside is the argument
+	if call, isCall := v.(*ssa.Call); isCall {
+		if f := call.Call.StaticCallee(); f != nil && core.InModule(f) && len(f.Blocks) > 0 && lockedWriterType(P, call.Type()) {
+			if rets := core.Returns(f); len(rets) == 1 && len(rets[0].Results) == 1 {
+				inner, lock := unwrapLocked(P, rets[0].Results[0])
+				if par, isPar := inner.(*ssa.Parameter); isPar && lock != "" {
+					for i, q := range f.Params {
+						if q == par && i < len(call.Call.Args) {
+							return core.StripConv(call.Call.Args[i]), "built at " + P.InstrPos(call)
+						}
+					}
+				}
+			}
+		}
+		return v, ""
+	}
 	al, ok := v.(*ssa.Alloc)
 	if !ok || !lockedWriterType(P, al.Type()) {
 		return v, ""
